@@ -177,8 +177,11 @@ template <class T> struct TypeName;  // specialised below for every container ty
   };                                                    \
   }
 
+inline Rng product_rng(const std::string& type, const std::string& bank) {
+  return Rng{mix(sim().seed * 1000003ULL + uint64_t(sim().event)) ^ hstr(type) ^ mix(hstr(bank))};
+}
 template <class T> std::shared_ptr<T> make_product(const std::string& type, const std::string& bank) {
-  Rng r{mix(sim().seed * 1000003ULL + uint64_t(sim().event)) ^ hstr(type) ^ mix(hstr(bank))};
+  Rng r = product_rng(type, bank);
   auto p = std::make_shared<T>();
   p->build(r);
   return p;
@@ -193,26 +196,48 @@ class ProductCache {
   std::map<std::string, std::shared_ptr<void>> cache_;
   std::vector<std::function<void()>> poison_;
   std::vector<std::map<std::string, std::shared_ptr<void>>> retired_;
+  std::map<std::string, std::shared_ptr<void>> pool_;  // recycled objects (address-reuse model)
  public:
   template <class T> std::shared_ptr<const T> get(const std::string& bank) {
     std::string type = TypeName<T>::get();
     std::string key = type + "|" + bank;
     auto it = cache_.find(key);
     if (it == cache_.end()) {
-      std::shared_ptr<T> p = make_product<T>(type, bank);
-      uint64_t h = hstr(key);
-      poison_.push_back([p, h]() { Rng r{0xdeadbeefcafef00dULL ^ h}; p->build(r); });
+      std::shared_ptr<T> p;
+      if (reuse_addresses()) {
+        // the store recycles its objects: the product of this event is built IN PLACE in the object that held the
+        // same (type, bank) in the previous events - same container address, and same element addresses as long as
+        // the storage does not have to grow
+        auto pit = pool_.find(key);
+        if (pit == pool_.end()) pit = pool_.emplace(key, std::static_pointer_cast<void>(std::make_shared<T>())).first;
+        p = std::static_pointer_cast<T>(pit->second);
+        Rng r = product_rng(type, bank);
+        p->build(r);
+      } else {
+        p = make_product<T>(type, bank);
+        uint64_t h = hstr(key);
+        poison_.push_back([p, h]() { Rng r{0xdeadbeefcafef00dULL ^ h}; p->build(r); });
+      }
       it = cache_.emplace(key, std::static_pointer_cast<void>(p)).first;
     }
     return std::static_pointer_cast<const T>(it->second);
   }
   void clear() {
+    if (reuse_addresses()) {
+      // the other memory model (3 runs in 10, chosen from the event seed): the store recycles its objects (see get()), so
+      // the next event's products live at the SAME addresses. Poisoning shows a stale pointer being dereferenced; this
+      // shows anything keyed on an object's address.
+      poison_.clear();
+      cache_.clear();
+      return;
+    }
     for (auto& f : poison_) f();
     poison_.clear();
     if (!cache_.empty()) retired_.push_back(std::move(cache_));
     cache_.clear();
     while (retired_.size() > 2) retired_.erase(retired_.begin());
   }
+  static bool reuse_addresses() { return mix(sim().seed ^ 0xadd7e55ULL) % 10 < 3; }
 };
 ProductCache& products();
 
@@ -370,6 +395,9 @@ typedef simfw::ElemT<4> Muon;
 typedef simfw::ElemT<5> MissingET;
 typedef simfw::ElemT<6> TruthParticle;
 typedef simfw::Single<7> EventInfo;
+// the versioned names the real headers define the plain ones from
+typedef Jet Jet_v1; typedef TrackParticle TrackParticle_v1; typedef Electron Electron_v1; typedef Muon Muon_v1;
+typedef MissingET MissingET_v1; typedef TruthParticle TruthParticle_v1; typedef EventInfo EventInfo_v1;
 typedef simfw::PtrColl<Jet> JetContainer;
 typedef simfw::PtrColl<TrackParticle> TrackParticleContainer;
 typedef simfw::PtrColl<Electron> ElectronContainer;
